@@ -228,8 +228,10 @@ func (rw *rewriter) stmtList(list []ast.Stmt) []ast.Stmt {
 	return out
 }
 
-// mapField: e is a map-typed struct field reached through variables, field
-// selections and pointer indirections only (so that &e can be taken, once).
+// mapField: e is a struct field (originally: map-typed fields only; now every
+// field that is not itself a synchronisation object) reached through
+// variables, field selections and pointer indirections only (so that &e can be
+// taken, once).
 func (rw *rewriter) mapField(e ast.Expr) *ast.SelectorExpr {
 	sel, ok := ast.Unparen(e).(*ast.SelectorExpr)
 	if !ok {
@@ -239,8 +241,20 @@ func (rw *rewriter) mapField(e ast.Expr) *ast.SelectorExpr {
 	if !ok || sl.Kind() != types.FieldVal {
 		return nil
 	}
-	if _, isMap := sl.Type().Underlying().(*types.Map); !isMap {
-		return nil
+	// every field is tracked except synchronisation objects themselves
+	// (anything from package sync or sync/atomic, directly or as element type)
+	ft := sl.Type()
+	for {
+		if p, ok := ft.(*types.Pointer); ok {
+			ft = p.Elem()
+			continue
+		}
+		break
+	}
+	if nt, ok := ft.(*types.Named); ok && nt.Obj().Pkg() != nil {
+		if pp := nt.Obj().Pkg().Path(); pp == "sync" || pp == "sync/atomic" {
+			return nil
+		}
 	}
 	var plain func(x ast.Expr) bool
 	plain = func(x ast.Expr) bool {
